@@ -30,7 +30,12 @@ type c19Filter struct {
 }
 
 func c19Prop(c *sim.Case) {
-	const ns = "default"
+	// the namespace the service runs in; events from "other" - and from "default" when the service runs elsewhere - are foreign
+	ns := sim.PickStr(c, "namespace", "default", "authservice", "default", "team-a")
+	foreign := "other"
+	if ns != "default" && sim.Bool(c, "foreign-is-default") {
+		foreign = "default"
+	}
 	names := []string{"s1", "s2", "s3"}
 	nf := 1 + sim.Pick(c, "nfilters", 4)
 	var fs []*c19Filter
@@ -39,8 +44,8 @@ func c19Prop(c *sim.Case) {
 		f := &c19Filter{}
 		if sim.Weighted(c, "kind", 1, 3) == 1 {
 			f.refName = names[sim.Pick(c, "ref", len(names))]
-			f.refNS = []string{"", ns, "other"}[sim.Weighted(c, "refns", 5, 5, 1)]
-			if f.refNS == "other" {
+			f.refNS = []string{"", ns, foreign}[sim.Weighted(c, "refns", 5, 5, 1)]
+			if f.refNS == foreign {
 				cross = true
 			}
 		} else {
@@ -125,7 +130,7 @@ func c19Prop(c *sim.Case) {
 		if name == "" {
 			name = "unrelated"
 		}
-		sns := []string{ns, "other"}[sim.Weighted(c, "ns", 5, 1)]
+		sns := []string{ns, foreign}[sim.Weighted(c, "ns", 5, 1)]
 		key := types.NamespacedName{Namespace: sns, Name: name}
 		kind := sim.PickStr(c, "event", "set", "set", "set", "empty", "dropkey", "deleting", "delete", "spurious")
 		kinds = append(kinds, kind+":"+sns+"/"+name)
